@@ -1,10 +1,26 @@
 """C09: errors reach the nearest try; deferred calls run once, LIFO, on every exit."""
 import interpcheck
 
+EXPECT = [
+    {"src": "r = []\nfunc a() { r += \"a\" }\nfunc b() { r += \"b\" }\nfunc c() { r += \"c\" }\nfunc run() { for g in [a, b, c] { defer g() }; r += \"body\" }\nrun()\nr",
+     "field": "result", "want": "[s:626f6479,s:63,s:62,s:61]", "why": "each executed defer runs the function it named at that time, once, in reverse order"},
+    {"src": "func with(cleanup) { defer cleanup(); probe(0) }\nwith(func() { probe(1) })\nwith(func() { probe(2) })\nnil", "field": "trace", "want": "(i:0);(i:1);(i:0);(i:2)",
+     "why": "a defer statement executed in a later invocation defers that invocation's function"},
+    {"src": "func with(cleanup) { defer cleanup() }\nr = \"none\"\nwith(func() { })\ntry { with(func() { throw \"late\" }) } catch e { r = \"caught\" }\nr", "field": "result", "want": "s:636175676874",
+     "why": "an error raised by a deferred call of a later invocation reaches the enclosing try"},
+    {"src": "func f(n) { g = func() { probe(n) }; defer g(); if n > 0 { f(n - 1) } }\nf(2)\nnil", "field": "trace", "want": "(i:0);(i:1);(i:2)",
+     "why": "recursion: every invocation runs its own deferred function"},
+    {"src": "r = []\nfunc f() { for i in [1, 2, 3] { defer func(k) { r += k }(i) }; r += 0 }\nf()\nr", "field": "result", "want": "[i:0,i:3,i:2,i:1]",
+     "why": "deferred calls run LIFO with the arguments evaluated at the defer statement"},
+    {"src": "r = []\nfunc f() { try { defer probe(1); throw \"x\" } catch e { r += \"c\" } finally { r += \"f\" }; r += \"end\" }\nf()\nr", "field": "result",
+     "want": "[s:63,s:66,s:656e64]", "why": "catch then finally run; the defer of the function runs at its exit"},
+]
+
+
 def run(tier, seed, replay=None):
     return interpcheck.run_interp_check(
         "C09", "c09", ("result", "trace"), {"quick": 6000, "thorough": 150000}, tier, seed,
         rule="programs nesting try/catch/finally, throw, runtime errors, functions with defer statements (host and script "
              "callees, inside loops and branches), return at random positions; compared: probe trace and value / error class; "
              "non-trivial = distinct source with a non-empty trace",
-        design_ref="DESIGN.md §4 C09")
+        design_ref="DESIGN.md §4 C09", expectations=EXPECT)
